@@ -4,16 +4,19 @@ from pyvc import spec as SP
 from pyvc.sym import Sym
 
 META = {
-    "explanation": "_formula_to_format is proved modularly (over the contracts of _formula_to_parts, _get_leading_integer and _get_charge, each proved in C01): prefix images from the table, every hydrate part rendered with counts wrapped by the format's subscript, the infix image between parts, the hydrate multiplier printed iff it differs from 1, the charge token 'magnitude then sign with 1 omitted' wrapped by the superscript, suffixes verbatim - for every charge and multiplier; the greek/radical/hydrate/sub/superscript tables are data obligations against Unicode code points; Species.from_formula's phase index for list and dict phases; the printers pick latex_name/unicode_name/html_name (falling back to the key) and lay reactions out as in C12",
-    "trusted_base": ["A9: re.sub on concrete count patterns (run natively on the concrete hydrate parts)", "Unicode code points typed into this file"],
+    "explanation": "_formula_to_format is proved modularly (over the contracts of _formula_to_parts, _get_leading_integer and _get_charge, each proved in C01): prefix images from the table, every hydrate part rendered with counts wrapped by the format's subscript, the infix image between parts, the hydrate multiplier printed iff it differs from 1, the charge token 'magnitude then sign with 1 omitted' wrapped by the superscript, suffixes verbatim - for every charge and multiplier; the greek/radical/hydrate/sub/superscript tables are data obligations against Unicode code points; Species.from_formula's phase index for list and dict phases; the printers pick latex_name/unicode_name/html_name (falling back to the key) and lay reactions out as in C12; printed reactions are read back term by term (data obligations): stored order, coefficient omitted iff it equals 1 (any numeric type) and otherwise a text that reads back as the stored number, inactive groups, Species with phase suffixes, one accepted arrow of the class",
+    "trusted_base": ["A9: re.sub on concrete count patterns (run natively on the concrete hydrate parts)", "Unicode code points typed into this file", "presentation symbols the statement does not spell out, typed into this file: \\varepsilon and o for epsilon/omicron, '^\\bullet ', '\\cdot ', &sdot;, the accepted arrows per class and format (_ARROWS), the bracketed group ' + ( ... )' for inactive species (the notation C12's parser reads)"],
     "not_decided": ["global injectivity of the regex substitution on arbitrary strings: bounded invertibility stand-in over generated formulas"],
     "assumptions": ["stoichiometry texts are concrete per harness; charge and hydrate multiplier symbolic"],
 }
 PA = "chempy.util.parsing"
 
 
-def _fmt_harness(fmt):
-    @harness("C13", "format_structure." + fmt, functions=[PA + ":_formula_to_format", PA + ":formula_to_" + fmt], kind="shape-bounded", samples=0, max_paths=400)
+def _fmt_harness(fmt, custom=False):
+    """clause 'every count becomes a subscript, the charge a superscript magnitude-then-sign with 1 omitted, separators / radical dots / greek prefixes map
+    to their symbols, suffixes verbatim', modularly over _formula_to_parts, _get_leading_integer and _get_charge.  custom=True: the same layout when the
+    caller gives his own prefixes=, infixes= and suffixes= (the optional arguments must reach the helpers and the images must come from the GIVEN tables)"""
+    @harness("C13", ("format_structure_own_tables." if custom else "format_structure.") + fmt, functions=[PA + ":_formula_to_format", PA + ":formula_to_" + fmt], kind="shape-bounded", samples=0, max_paths=400)
     def _(v):
         import z3
         from chempy.util import parsing
@@ -25,25 +28,34 @@ def _fmt_harness(fmt):
         has_chg = v.bool("has_charge")
         m = v.int("hydrate_multiplier", lo=1, hi=99)
         v.assume(SP.neg(chg == 0))
-        seen = {"parts": [], "leading": [], "charge": []}
+        seen = {"parts": [], "leading": [], "charge": [], "has_charge": []}
+        own_prefixes, own_infixes, own_suffixes = {"iso-": "<ISO>-", "n-": "<N>-"}, {"..": "<DOT>"}, ("(ads)",)
+        out_prefixes, out_suffix = (("iso-",), "(ads)") if custom else ((".", "alpha-"), "(s)")
 
         def parts_stub(v_, formula, prefixes, suffixes):
-            seen["parts"].append((formula, sorted(prefixes), tuple(suffixes)))
-            return ["Na2CO3..XH2.5O", ("+tok" if v_.path.branch(has_chg.e) else None), (".", "alpha-"), ("(s)",)]
+            seen["parts"].append((formula, sorted(prefixes), sorted(suffixes)))
+            with_charge = bool(v_.path.branch(has_chg.e))
+            seen["has_charge"].append(with_charge)
+            return ["Na2CO3..XH2.5O", ("+tok" if with_charge else None), out_prefixes, (out_suffix,)]
         v.contract(parsing._formula_to_parts, "_formula_to_parts", None, parts_stub)
         v.contract(parsing._get_leading_integer, "_get_leading_integer", None, lambda v_, s: (seen["leading"].append(s), (m, "H2.5O"))[1])
         v.contract(parsing._get_charge, "_get_charge", None, lambda v_, tok: (seen["charge"].append(tok), chg)[1])
         given = "the{formula}as_given" if fmt == "latex" else "the_formula_as_given"
-        r = v.call(fn, given)
-        # what the helpers receive: the formula as given (LaTeX: with its braces escaped), every prefix of THIS format's table, the four standard suffixes;
-        # only the part after the hydrate separator may carry a count; the charge token goes to _get_charge
-        table = {"latex": parsing._latex_mapping, "unicode": parsing._unicode_mapping, "html": parsing._html_mapping}[fmt]
+        r = v.call(fn, given, prefixes=own_prefixes, infixes=own_infixes, suffixes=own_suffixes) if custom else v.call(fn, given)
+        # side condition of the modular proof - what the helpers receive: the formula as given (LaTeX: with its braces escaped), the prefixes of THIS
+        # format's table (or of the caller's) and the suffixes in force; only the part after the hydrate separator may carry a multiplier; the charge token
+        # goes to _get_charge exactly when there is one.  Not part of the property, hence not demanded: how often a helper is asked (at least once, every
+        # time with the right argument) and in which order the prefixes / suffixes are listed (what the order of the prefixes must achieve is stated end
+        # to end in multi_digit_charges_and_counts.greek_prefix_then_radical_dot)
+        table = own_prefixes if custom else {"latex": parsing._latex_mapping, "unicode": parsing._unicode_mapping, "html": parsing._html_mapping}[fmt]
         want_formula = given.replace("{", "\\{").replace("}", "\\}") if fmt == "latex" else given
-        v.prove("helpers_get_the_right_arguments", seen["parts"] == [(want_formula, sorted(table.keys()), ("(s)", "(l)", "(g)", "(aq)"))] and seen["leading"] == ["XH2.5O"]
-                and seen["charge"] in ([], ["+tok"]), detail=repr(seen))
+        want_parts = (want_formula, sorted(table.keys()), sorted(own_suffixes if custom else ("(s)", "(l)", "(g)", "(aq)")))
+        with_charge = bool(seen["has_charge"]) and seen["has_charge"][0]
+        v.prove("helpers_get_the_right_arguments", len(seen["parts"]) >= 1 and all(p == want_parts for p in seen["parts"]) and len(seen["leading"]) >= 1 and all(x == "XH2.5O" for x in seen["leading"])
+                and ((len(seen["charge"]) >= 1 and all(x == "+tok" for x in seen["charge"])) if with_charge else seen["charge"] == []), detail=repr(seen))
         sub = {"latex": lambda x: "_{%s}" % x, "html": lambda x: "<sub>%s</sub>" % x, "unicode": lambda x: "".join("₀₁₂₃₄₅₆₇₈₉"[int(c)] if c != "." else "." for c in x)}[fmt]
-        pre = {"latex": "^\\bullet \\alpha-", "html": "&sdot;&alpha;-", "unicode": "⋅α-"}[fmt]
-        infix = {"latex": "\\cdot ", "html": "&sdot;", "unicode": "·"}[fmt]
+        pre = "<ISO>-" if custom else {"latex": "^\\bullet \\alpha-", "html": "&sdot;&alpha;-", "unicode": "⋅α-"}[fmt]
+        infix = "<DOT>" if custom else {"latex": "\\cdot ", "html": "&sdot;", "unicode": "·"}[fmt]
         body0 = "Na" + sub("2") + "CO" + sub("3")
         body1 = "H" + sub("2.5") + "O"
         mtxt = z3.If(m.e == 1, z3.StringVal(""), z3.IntToStr(m.e))
@@ -54,67 +66,118 @@ def _fmt_harness(fmt):
             absn = z3.If(chg.e < 0, -chg.e, chg.e)
             inner = z3.Concat(z3.If(absn == 1, z3.StringVal(""), z3.IntToStr(absn)), z3.If(chg.e < 0, z3.StringVal("-"), z3.StringVal("+")))
             tok = z3.Concat(z3.StringVal("^{" if fmt == "latex" else "<sup>"), inner, z3.StringVal("}" if fmt == "latex" else "</sup>"))
-        expected = z3.Concat(z3.StringVal(pre + body0 + infix), mtxt, z3.StringVal(body1), z3.If(has_chg.e, tok, z3.StringVal("")), z3.StringVal("(s)"))
+        expected = z3.Concat(z3.StringVal(pre + body0 + infix), mtxt, z3.StringVal(body1), z3.If(has_chg.e, tok, z3.StringVal("")), z3.StringVal(out_suffix))
         v.prove("layout", r == Sym(expected))
     return _
 
 
 for _f in ("latex", "unicode", "html"):
     _fmt_harness(_f)
+    _fmt_harness(_f, custom=True)
 
 
 @harness("C13", "tables", functions=[PA + ":<module tables>"], kind="data")
 def _(v):
+    """clause 'radical dots, hydrate separators and greek prefixes map to their symbols': each of the 24 greek names, the radical dot and the hydrate
+    separator has the stated image in each format's table (per key: a table may hold more, but nothing that could be cut off the front of a formula of the
+    C01 grammar), and the images are pairwise distinct (needed by the inverse clause)"""
     from chempy.util import parsing as P
     greek = "alpha beta gamma delta epsilon zeta eta theta iota kappa lambda mu nu xi omicron pi rho sigma tau upsilon phi chi psi omega".split()
     uni = [chr(c) for c in list(range(0x3B1, 0x3C2)) + list(range(0x3C3, 0x3CA))]   # α..ρ, σ..ω (final sigma skipped)
-    v.prove("24_greek_letters", tuple(greek) == tuple(P._greek_letters) and len(greek) == 24 and len(uni) == 24)
-    v.prove("unicode_greek", all(P._unicode_mapping[g + "-"] == u + "-" for g, u in zip(greek, uni)))
+    try:
+        tabs = {"latex": dict(P._latex_mapping), "unicode": dict(P._unicode_mapping), "html": dict(P._html_mapping)}
+        infixes = {"latex": dict(P._latex_infix_mapping), "unicode": dict(P._unicode_infix_mapping), "html": dict(P._html_infix_mapping)}
+        usub, usup = dict(P._unicode_sub), dict(P._unicode_sup)
+    except Exception as e:
+        v.prove("24_greek_letters", False, detail="the tables cannot be read: %r" % (e,))
+        return
+    listed = [g + "-" for g in greek] + ["."]
+    v.prove("24_greek_letters", len(set(greek)) == 24 and len(set(uni)) == 24 and all(k in t for t in tabs.values() for k in listed), detail=repr([(f, k) for f, t in tabs.items() for k in listed if k not in t][:5]))
+    v.prove("unicode_greek", all(tabs["unicode"].get(g + "-") == u + "-" for g, u in zip(greek, uni)))
     exp_latex = {g + "-": "\\" + g + "-" for g in greek}
     exp_latex["epsilon-"] = "\\varepsilon-"
     exp_latex["omicron-"] = "o-"
-    v.prove("latex_greek", all(P._latex_mapping[k] == x for k, x in exp_latex.items()))
-    v.prove("html_greek", all(P._html_mapping[g + "-"] == "&" + g + ";-" for g in greek))
-    v.prove("radical_dot", P._latex_mapping["."] == "^\\bullet " and P._unicode_mapping["."] == "⋅" and P._html_mapping["."] == "&sdot;")
-    v.prove("hydrate_infix", P._latex_infix_mapping == {"..": "\\cdot "} and P._unicode_infix_mapping == {"..": "·"} and P._html_infix_mapping == {"..": "&sdot;"})
-    v.prove("table_sizes", len(P._latex_mapping) == 25 and len(P._unicode_mapping) == 25 and len(P._html_mapping) == 25)
+    v.prove("latex_greek", all(tabs["latex"].get(k) == x for k, x in exp_latex.items()))
+    v.prove("html_greek", all(tabs["html"].get(g + "-") == "&" + g + ";-" for g in greek))
+    v.prove("radical_dot", tabs["latex"].get(".") == "^\\bullet " and tabs["unicode"].get(".") == "⋅" and tabs["html"].get(".") == "&sdot;")
+    v.prove("hydrate_infix", infixes["latex"].get("..") == "\\cdot " and infixes["unicode"].get("..") == "·" and infixes["html"].get("..") == "&sdot;")
+    # (was: exactly 25 entries)  the 25 listed keys have 25 different images, and whatever else a table holds cannot be taken off the front of a formula:
+    # a formula body begins with an element symbol (upper case), a bracket or is the electron 'e-', so a further prefix must begin with a lower case letter
+    # or a sign that is none of these and must not be (the beginning of) 'e-'
+    harmless = lambda k: isinstance(k, str) and k != "" and not k[0].isupper() and not k[0].isdigit() and k[0] not in "([{+-" and not "e-".startswith(k)
+    extra = {f: [k for k in t if k not in listed and not harmless(k)] for f, t in tabs.items()}
+    v.prove("table_sizes", all(len(set(t.get(k) for k in listed)) == 25 for t in tabs.values()) and not any(extra.values()), detail=repr(extra))
     subs = [chr(0x2080 + i) for i in range(10)]
     sups = ["⁰", "¹", "²", "³"] + [chr(0x2070 + i) for i in range(4, 10)]
-    v.prove("subscript_digits", all(P._unicode_sub[str(i)] == subs[i] for i in range(10)) and P._unicode_sub["."] == ".")
-    v.prove("superscript_digits_and_signs", all(P._unicode_sup[str(i)] == sups[i] for i in range(10)) and P._unicode_sup["+"] == "⁺" and P._unicode_sup["-"] == "⁻")
+    v.prove("subscript_digits", all(usub.get(str(i)) == subs[i] for i in range(10)) and usub.get(".") == ".")
+    v.prove("superscript_digits_and_signs", all(usup.get(str(i)) == sups[i] for i in range(10)) and usup.get("+") == "⁺" and usup.get("-") == "⁻")
+
+
+def _safely(v, name, thunk, expected):
+    """data obligation `name`: thunk() == expected; an exception of the code under test is a failed obligation, not a checker error"""
+    try:
+        got = thunk()
+    except Exception as e:
+        return v.prove(name, False, detail="raised %r" % (e,))
+    return v.prove(name, got == expected, detail="got %r, expected %r" % (got, expected))
 
 
 @harness("C13", "multi_digit_charges_and_counts", functions=[PA + ":formula_to_latex", PA + ":formula_to_unicode", PA + ":formula_to_html"], kind="data")
 def _(v):
+    """clause by clause on whole formulas (expected texts written by hand from the statement): counts and charges of several digits, decimal counts,
+    both hydrate separators and several hydrate parts, greek prefixes in every format and next to a radical dot / a charge, brackets kept verbatim"""
     from chempy.util.parsing import formula_to_latex as L, formula_to_unicode as U, formula_to_html as H
-    v.prove("charge_12", L("X+12") if False else L("Fe+12") == "Fe^{12+}" and U("Fe-12") == "Fe¹²⁻" and H("Fe+12") == "Fe<sup>12+</sup>")
-    v.prove("count_108", L("C108H2") == "C_{108}H_{2}" and U("C108") == "C₁₀₈" and H("C108") == "C<sub>108</sub>")
-    v.prove("braces_escaped_in_latex", L("{Fe(CN)6}-3") == "\\{Fe(CN)_{6}\\}^{3-}")
-    v.prove("hydrate_one_omitted", L("Na2CO3..1H2O") == "Na_{2}CO_{3}\\cdot H_{2}O" and L("Na2CO3..10H2O") == "Na_{2}CO_{3}\\cdot 10H_{2}O")
-    v.prove("each_greek_prefix_alone", all(L(g + "-Fe") == ("\\" + g if g not in ("epsilon", "omicron") else {"epsilon": "\\varepsilon", "omicron": "o"}[g]) + "-Fe"
-                                          for g in "alpha beta gamma delta epsilon zeta eta theta iota kappa lambda mu nu xi omicron pi rho sigma tau upsilon phi chi psi omega".split()))
+    greek = "alpha beta gamma delta epsilon zeta eta theta iota kappa lambda mu nu xi omicron pi rho sigma tau upsilon phi chi psi omega".split()
+    three = lambda f: (L(f), U(f), H(f))
+    _safely(v, "charge_12", lambda: (L("Fe+12"), U("Fe-12"), H("Fe+12")), ("Fe^{12+}", "Fe¹²⁻", "Fe<sup>12+</sup>"))
+    _safely(v, "count_108", lambda: (L("C108H2"), U("C108"), H("C108")), ("C_{108}H_{2}", "C₁₀₈", "C<sub>108</sub>"))
+    _safely(v, "braces_escaped_in_latex", lambda: L("{Fe(CN)6}-3"), "\\{Fe(CN)_{6}\\}^{3-}")
+    _safely(v, "hydrate_one_omitted", lambda: (L("Na2CO3..1H2O"), L("Na2CO3..10H2O")), ("Na_{2}CO_{3}\\cdot H_{2}O", "Na_{2}CO_{3}\\cdot 10H_{2}O"))
+    _safely(v, "each_greek_prefix_alone", lambda: [L(g + "-Fe") for g in greek], [("\\" + g if g not in ("epsilon", "omicron") else {"epsilon": "\\varepsilon", "omicron": "o"}[g]) + "-Fe" for g in greek])
+    # a decimal count is ONE count, also when its integer part has several digits
+    _safely(v, "decimal_count_above_ten", lambda: three("C12.5H3"), ("C_{12.5}H_{3}", "C₁₂.₅H₃", "C<sub>12.5</sub>H<sub>3</sub>"))
+    # 'hydrate separators map to their symbols': the middle dot U+00B7 is the other spelling of '..' in the C01 grammar; more than one hydrate part
+    _safely(v, "hydrate_written_with_the_middle_dot", lambda: three("Na2CO3" + chr(0xB7) + "7H2O"), ("Na_{2}CO_{3}\\cdot 7H_{2}O", "Na₂CO₃" + chr(0xB7) + "7H₂O", "Na<sub>2</sub>CO<sub>3</sub>&sdot;7H<sub>2</sub>O"))
+    _safely(v, "two_hydrate_parts", lambda: three("Na2CO3..7H2O..2HCl"), ("Na_{2}CO_{3}\\cdot 7H_{2}O\\cdot 2HCl", "Na₂CO₃·7H₂O·2HCl", "Na<sub>2</sub>CO<sub>3</sub>&sdot;7H<sub>2</sub>O&sdot;2HCl"))
+    # greek prefixes whose name contains another one (eta in beta/zeta/theta), in the other two formats; the '-' of a prefix is not a charge sign
+    _safely(v, "greek_prefix_unicode_html_and_before_a_charge", lambda: (U("theta-Fe"), H("zeta-Fe"), U("eta-Fe")) + three("beta-Fe+3"), (chr(0x3B8) + "-Fe", "&zeta;-Fe", chr(0x3B7) + "-Fe", "\\beta-Fe^{3+}", chr(0x3B2) + "-Fe³⁺", "&beta;-Fe<sup>3+</sup>"))
+    # both prefixes of a formula are mapped (greek, then the radical dot: the order the C01 grammar writes them in), whatever order the table lists them in
+    _safely(v, "greek_prefix_then_radical_dot", lambda: three("alpha-.FeOOH(s)"), ("\\alpha-^\\bullet FeOOH(s)", chr(0x3B1) + "-" + chr(0x22C5) + "FeOOH(s)", "&alpha;-&sdot;FeOOH(s)"))
+    # 'brackets are kept verbatim' (LaTeX escapes the braces, which is how LaTeX shows them verbatim)
+    _safely(v, "brackets_verbatim", lambda: three("[Fe(CN)6]-3") + three("{[Fe(H2O)6]2}+6"),
+            ("[Fe(CN)_{6}]^{3-}", "[Fe(CN)₆]³⁻", "[Fe(CN)<sub>6</sub>]<sup>3-</sup>", "\\{[Fe(H_{2}O)_{6}]_{2}\\}^{6+}", "{[Fe(H₂O)₆]₂}⁶⁺", "{[Fe(H<sub>2</sub>O)<sub>6</sub>]<sub>2</sub>}<sup>6+</sup>"))
 
 
 def _phase(kind):
     @harness("C13", "Species.phase_idx." + kind, functions=["chempy.chemistry:Species.from_formula"], kind="data")
     def _(v):
+        """clause 'a species created from a formula carries these three names, that composition, and the phase index its suffix selects' for phases given
+        as a sequence (index = position + 1) or as a mapping (index = the value, 0 included)"""
         from chempy.chemistry import Species
+        idx = lambda *a, **k: Species.from_formula(*a, **k).phase_idx
         if kind == "sequence":
             cases = [("NaCl(s)", 1), ("Hg(l)", 2), ("CO2(g)", 3), ("CO2(aq)", 0), ("H2O", 0), ("Na+(aq)", 0), ("Fe+3(s)", 1)]
-            v.prove("index_from_suffix", all(Species.from_formula(f).phase_idx == i for f, i in cases))
-            v.prove("custom_order", Species.from_formula("CO2(aq)", ["(aq)", "(s)"]).phase_idx == 1 and Species.from_formula("X(s)" if False else "NaCl(s)", ["(aq)", "(s)"]).phase_idx == 2)
+            _safely(v, "index_from_suffix", lambda: [idx(f) for f, i in cases], [i for f, i in cases])
+            _safely(v, "custom_order", lambda: (idx("CO2(aq)", ["(aq)", "(s)"]), idx("NaCl(s)", ["(aq)", "(s)"])), (1, 2))
             try:
                 Species.from_formula("CO2(aq)", default_phase_idx=None); ok = False
-            except ValueError:
+            except Exception:   # refused: which exception is not part of the property
                 ok = True
             v.prove("unknown_suffix_without_default_raises", ok)
-            v.prove("default_used", Species.from_formula("CO2(aq)", default_phase_idx=7).phase_idx == 7)
+            _safely(v, "default_used", lambda: idx("CO2(aq)", default_phase_idx=7), 7)
+            ph = ["(ads)"]
         else:
             ph = {"(aq)": 0, "(s)": 1, "(ads)": 5}
-            v.prove("dict_lookup", [Species.from_formula(f, ph).phase_idx for f in ("CO2(aq)", "NaCl(s)", "UO2+2(ads)")] == [0, 1, 5])
-            v.prove("explicit_phase_idx_wins", Species.from_formula("NaCl(s)", phase_idx=9).phase_idx == 9)
-        s = Species.from_formula("Fe+3(aq)")
-        v.prove("names_and_composition", (s.latex_name, s.unicode_name, s.html_name, s.composition) == ("Fe^{3+}(aq)", "Fe³⁺(aq)", "Fe<sup>3+</sup>(aq)", {26: 1, 0: 3}))
+            _safely(v, "dict_lookup", lambda: [idx(f, ph) for f in ("CO2(aq)", "NaCl(s)", "UO2+2(ads)")], [0, 1, 5])
+            # an index given explicitly wins over the mapping that lists the suffix
+            _safely(v, "explicit_phase_idx_wins", lambda: (idx("NaCl(s)", ph, phase_idx=9), idx("NaCl(s)", phase_idx=9)), (9, 9))
+            # index 0 is an index like any other: the suffix selects it whatever the default is (also when there is none)
+            zero = {"(aq)": 0, "(s)": 1, "(g)": 2}
+            _safely(v, "mapped_index_zero_is_found", lambda: (idx("Ca+2(aq)", zero, default_phase_idx=None), idx("Ca+2(aq)", zero, default_phase_idx=3), idx("CO2(g)", zero, default_phase_idx=None)), (0, 0, 2))
+        _safely(v, "names_and_composition", lambda: (lambda s: (s.latex_name, s.unicode_name, s.html_name, s.composition))(Species.from_formula("Fe+3(aq)")), ("Fe^{3+}(aq)", "Fe³⁺(aq)", "Fe<sup>3+</sup>(aq)", {26: 1, 0: 3}))
+        # a suffix of the caller's own phases is kept verbatim in the names and is not read as part of the formula (U = 92, O = 8)
+        _safely(v, "names_and_composition_with_own_phases", lambda: (lambda s: (s.name, s.latex_name, s.unicode_name, s.html_name, s.composition, s.phase_idx))(Species.from_formula("UO2+2(ads)", ph)),
+                ("UO2+2(ads)", "UO_{2}^{2+}(ads)", "UO₂²⁺(ads)", "UO<sub>2</sub><sup>2+</sup>(ads)", {92: 1, 8: 2, 0: 2}, 1 if kind == "sequence" else 5))
     return _
 
 
@@ -143,49 +206,203 @@ def _(v):
     """names, composition and phase index depend on the formula and the arguments of THIS call only: arguments are not modified and nothing is
     remembered from earlier constructions"""
     from chempy.chemistry import Species, Substance
+
+    def prove(name, thunk):   # an exception of the code under test is a failed obligation
+        try:
+            return v.prove(name, thunk())
+        except Exception as e:
+            return v.prove(name, False, detail="raised %r" % (e,))
     phases = ["(aq)"]
-    s1 = Species.from_formula("Na+(aq)", phases=phases)
-    v.prove("phases_argument_not_modified", phases == ["(aq)"] and s1.phase_idx == 1)
-    s2 = Species.from_formula("H2O(l)", phases=phases)
-    s3 = Species.from_formula("NaCl(s)", phases=phases)
-    v.prove("suffix_not_in_phases_selects_the_default_index", s2.phase_idx == 0 and s3.phase_idx == 0 and phases == ["(aq)"])
+    prove("phases_argument_not_modified", lambda: Species.from_formula("Na+(aq)", phases=phases).phase_idx == 1 and phases == ["(aq)"])
+    prove("suffix_not_in_phases_selects_the_default_index", lambda: Species.from_formula("H2O(l)", phases=phases).phase_idx == 0 and Species.from_formula("NaCl(s)", phases=phases).phase_idx == 0 and phases == ["(aq)"])
     out = None
     try:
         Species.from_formula("CO2(g)", phases=phases, default_phase_idx=None)
-    except ValueError as e:
+    except Exception as e:   # refused: which exception is not part of the property
         out = e
-    v.prove("no_default_and_unknown_suffix_is_refused", out is not None)
+    v.prove("no_default_and_unknown_suffix_is_refused", out is not None and phases == ["(aq)"])
     as_dict = {"(s)": 2, "(aq)": 5}
-    s4 = Species.from_formula("NaCl(s)", phases=as_dict)
-    v.prove("phases_mapping_not_modified", as_dict == {"(s)": 2, "(aq)": 5} and s4.phase_idx == 2)
-    f3 = Substance.from_formula("Fe", charge=3)
-    f0 = Substance.from_formula("Fe")
-    f0.composition[26] = 7            # the caller edits ITS substance: later substances from the same formula must not see it
-    f0.composition[0] = -2
-    fresh = Substance.from_formula("Fe")
-    v.prove("editing_one_substance_does_not_change_the_next", fresh.composition == {26: 1} and fresh.charge == 0)
-    f0.composition[26] = 1
-    del f0.composition[0]
-    v.prove("same_formula_again", f3.composition == {26: 1, 0: 3} and f0.composition == {26: 1} and f0.charge == 0 and (f0.latex_name, f0.unicode_name, f0.html_name) == ("Fe", "Fe", "Fe")
-            and Substance.from_formula("Fe", charge=3).composition == {26: 1, 0: 3})
+    prove("phases_mapping_not_modified", lambda: Species.from_formula("NaCl(s)", phases=as_dict).phase_idx == 2 and as_dict == {"(s)": 2, "(aq)": 5})
+    state = {}
+
+    def edit_then_fresh():
+        state["f3"] = Substance.from_formula("Fe", charge=3)
+        f0 = state["f0"] = Substance.from_formula("Fe")
+        f0.composition[26] = 7            # the caller edits ITS substance: later substances from the same formula must not see it
+        f0.composition[0] = -2
+        fresh = Substance.from_formula("Fe")
+        return fresh.composition == {26: 1} and fresh.charge == 0
+    prove("editing_one_substance_does_not_change_the_next", edit_then_fresh)
+
+    def again():
+        f3, f0 = state["f3"], state["f0"]
+        f0.composition[26] = 1
+        del f0.composition[0]
+        return (f3.composition == {26: 1, 0: 3} and f0.composition == {26: 1} and f0.charge == 0 and (f0.latex_name, f0.unicode_name, f0.html_name) == ("Fe", "Fe", "Fe")
+                and Substance.from_formula("Fe", charge=3).composition == {26: 1, 0: 3})
+    prove("same_formula_again", again)
+    # the same through Species.from_formula (which asks for the composition with its own suffixes: another call, another place for a memo), phases given
+    # as a list and as a mapping: the caller spoils HIS species, the next one from the same formula and the same phases object is as the formula says
+    for label, ph, index in (("sequence", ["(aq)"], 1), ("mapping", {"(aq)": 4}, 4)):
+        try:
+            one = Species.from_formula("Fe+3(aq)", phases=ph)
+            one.composition[26] = 7
+            del one.composition[0]
+            two = Species.from_formula("Fe+3(aq)", phases=ph)
+            got = (two.composition, two.charge, two.phase_idx, two.latex_name, two.unicode_name, two.html_name)
+        except Exception as e:
+            got = repr(e)
+        v.prove("editing_one_species_does_not_change_the_next." + label, got == ({26: 1, 0: 3}, 3, index, "Fe^{3+}(aq)", "Fe³⁺(aq)", "Fe<sup>3+</sup>(aq)"), detail=repr(got))
+
+
+# "that format's arrow": the statement names no arrow, so any of the usual arrows of the format is accepted - a one-way arrow for a reaction, a two-way arrow
+# for an equilibrium, never the same for both (chempy today: \rightarrow → &rarr; and \rightleftharpoons ⇌ &harr;)
+_ARROWS = {
+    "Reaction": {"latex": ("\\rightarrow", "\\to", "\\longrightarrow"), "unicode": (chr(0x2192), chr(0x27F6)), "html": ("&rarr;", "&#8594;", "&#x2192;", chr(0x2192))},
+    "Equilibrium": {"latex": ("\\rightleftharpoons", "\\leftrightharpoons", "\\rightleftarrows", "\\leftrightarrows", "\\leftrightarrow"),
+                    "unicode": (chr(0x21CC), chr(0x21CB), chr(0x21C4), chr(0x21C6), chr(0x2194)),
+                    "html": ("&harr;", "&rlhar;", "&lrhar;", "&rlarr;", "&lrarr;", "&#8652;", "&#8651;", "&#8644;", "&#8646;", "&#8596;", "&#x21cc;", "&#x21CC;", chr(0x21CC), chr(0x21C4), chr(0x2194))},
+}
+
+
+def _number(text):
+    """the number a printed coefficient stands for (12, 0.5, 1/3, \\frac{1}{3}), None when it is no number"""
+    import re
+    from fractions import Fraction
+    m = re.fullmatch(r"\\[td]?frac\{(\d+)\}\{(\d+)\}", text)
+    try:
+        return float(Fraction(int(m.group(1)), int(m.group(2))) if m else Fraction(text))
+    except (ValueError, ZeroDivisionError):
+        return None
+
+
+def _terms_shown(text, expected):
+    """does `text` show exactly the terms expected = [(coefficient, rendered name), ...], in this order, joined by ' + ', each as 'coefficient blank name' with
+    the coefficient left out exactly when it equals 1 (whatever its type) and otherwise written as a text that reads back as the stored number?"""
+    terms = text.split(" + ")
+    if len(terms) != len(expected):
+        return False
+    for term, (coeff, name) in zip(terms, expected):
+        if not term.endswith(name):
+            return False
+        head = term[:len(term) - len(name)]
+        if coeff == 1:
+            if head != "":
+                return False
+        elif head == "" or not head[-1].isspace() or _number(head.strip()) != float(coeff):
+            return False
+    return True
+
+
+def _line_shown(line, fmt, cls_name, reac, prod, inact_reac=(), inact_prod=()):
+    """the printed line is: reactants [+ ( inactive reactants)] ARROW products [+ ( inactive products)] with one accepted arrow of the class; returns '' or what is wrong"""
+    import re
+    hits = [arrow for arrow in _ARROWS[cls_name][fmt] if len(line.split(" " + arrow + " ")) == 2]
+    foreign = [arrow for other in _ARROWS if other != cls_name for arrow in _ARROWS[other][fmt] if arrow not in _ARROWS[cls_name][fmt] and (" " + arrow + " ") in line]
+    if len(hits) != 1 or foreign:
+        return "not exactly one arrow, a %s arrow of %s, in %r" % (cls_name, fmt, line)
+    sides = line.split(" " + hits[0] + " ")
+    for side, active, inactive, what in ((sides[0], reac, inact_reac, "left"), (sides[1], prod, inact_prod, "right")):
+        if inactive:
+            m = re.fullmatch(r"(.*?) \+ \(\s*(.*?)\s*\)", side)
+            if m is None or not _terms_shown(m.group(1), list(active)) or not _terms_shown(m.group(2), list(inactive)):
+                return "%s side %r does not show %r + ( %r )" % (what, side, list(active), list(inactive))
+        elif not _terms_shown(side, list(active)):
+            return "%s side %r does not show %r" % (what, side, list(active))
+    return ""
+
+
+_NAMES = {   # rendered names written by hand from the statement (counts -> subscripts, charge -> superscript magnitude-then-sign with 1 omitted, radical dot, suffix verbatim)
+    "H2O2": ("H_{2}O_{2}", "H₂O₂", "H<sub>2</sub>O<sub>2</sub>"), "H2O": ("H_{2}O", "H₂O", "H<sub>2</sub>O"), "O2": ("O_{2}", "O₂", "O<sub>2</sub>"),
+    "Fe+3": ("Fe^{3+}", "Fe³⁺", "Fe<sup>3+</sup>"), "Fe+2": ("Fe^{2+}", "Fe²⁺", "Fe<sup>2+</sup>"), "OH-": ("OH^{-}", "OH⁻", "OH<sup>-</sup>"),
+    "H+": ("H^{+}", "H⁺", "H<sup>+</sup>"), ".OH": ("^\\bullet OH", chr(0x22C5) + "OH", "&sdot;OH"),
+    "Fe+3(aq)": ("Fe^{3+}(aq)", "Fe³⁺(aq)", "Fe<sup>3+</sup>(aq)"), "Fe(OH)3(s)": ("Fe(OH)_{3}(s)", "Fe(OH)₃(s)", "Fe(OH)<sub>3</sub>(s)"),
+}
+_FORMATS = ("latex", "unicode", "html")
+
+
+def _expected_terms(stored, fmt):
+    """[(coefficient, rendered name)] in the order the reaction stores them"""
+    return [(c, _NAMES[k][_FORMATS.index(fmt)]) for k, c in stored.items()]
 
 
 @harness("C13", "printed_reactions.coefficients", functions=["chempy.printing.string:StrPrinter._Reaction_parts", "chempy.chemistry:Reaction.latex", "chempy.chemistry:Reaction.unicode", "chempy.chemistry:Reaction.html"], kind="data")
 def _(v):
-    """'coefficients written before the name and omitted when 1' for every kind of coefficient: 1 is omitted, every other value (2, 12, 0.5, 1.5, a
-    Fraction) is written, in all three formats, for reactions and equilibria, with the substances' format names"""
+    """'shows, side by side in stored order, each coefficient (omitted when 1) and the rendered name of its species around that format's arrow': 1 - of any
+    numeric type - is omitted, every other value (2, 12, 0.5, 1.5, a Fraction) is written as a text that reads back as the stored number, the coefficient stands
+    before ITS name at every position of either side, the order is the stored one (list(r.reac), list(r.prod)), in all three formats, for reactions and
+    equilibria, with the substances' format names"""
+    from collections import OrderedDict
     from fractions import Fraction
+    import numpy
     from chempy.chemistry import Reaction, Equilibrium, Substance
-    subs = {k: Substance.from_formula(k) for k in ("H2O2", "H2O", "O2", "Fe+3")}
+    bad = {"int": [], "other_ones": [], "position": [], "order": []}
+    try:
+        subs = {k: Substance.from_formula(k) for k in ("H2O2", "H2O", "O2", "Fe+3", "H+")}
+        for cls in (Reaction, Equilibrium):
+            runs = [("int", cls({"H2O2": 1, "Fe+3": c}, {"H2O": 1, "O2": c}, checks=())) for c in (1, 2, 12, 0.5, 1.5, Fraction(1, 3))]
+            runs += [("other_ones", cls({"H2O2": 2, "Fe+3": c}, {"H2O": c, "O2": 3}, checks=())) for c in (1.0, Fraction(1), numpy.int64(1), numpy.float64(1.0))]
+            # the coefficient that differs from 1 on the other reactant / product, and a different one on every species
+            runs += [("position", cls({"H2O2": c, "Fe+3": 1}, {"H2O": c, "O2": 1}, checks=())) for c in (2, 0.5, Fraction(2, 3))]
+            runs += [("position", cls({"H2O2": 2, "Fe+3": 3, "H+": 1}, {"H2O": 5, "O2": 1, "H2O2": 7}, checks=()))]
+            # stored order that is not the alphabetical one (an OrderedDict is stored as given), both ways round
+            runs += [("order", cls(OrderedDict([("H2O", 2), ("Fe+3", 1)]), OrderedDict([("O2", 1), ("H+", 4)]), checks=())),
+                     ("order", cls(OrderedDict([("Fe+3", 1), ("H2O", 2)]), OrderedDict([("H+", 4), ("O2", 1)]), checks=()))]
+            for tag, r in runs:
+                for fmt in _FORMATS:
+                    got = getattr(r, fmt)(subs)
+                    wrong = _line_shown(got, fmt, cls.__name__, _expected_terms(r.reac, fmt), _expected_terms(r.prod, fmt))
+                    if wrong:
+                        bad[tag].append((cls.__name__, fmt, wrong))
+    except Exception as e:
+        for tag in bad:
+            bad[tag].append("raised %r" % (e,))
+    v.prove("one_is_omitted_everything_else_is_written", not bad["int"], detail=repr(bad["int"][:3]))
+    v.prove("a_one_of_any_numeric_type_is_omitted", not bad["other_ones"], detail=repr(bad["other_ones"][:3]))
+    v.prove("coefficient_stands_before_its_own_name_at_every_position", not bad["position"], detail=repr(bad["position"][:3]))
+    v.prove("printed_order_is_the_stored_order", not bad["order"], detail=repr(bad["order"][:3]))
+
+
+@harness("C13", "printed_reactions.inactive_groups", functions=["chempy.printing.string:StrPrinter._Reaction_parts", "chempy.printing.string:StrPrinter._Reaction_str", "chempy.chemistry:Reaction.latex", "chempy.chemistry:Reaction.unicode",
+                                                               "chempy.chemistry:Reaction.html"], kind="data")
+def _(v):
+    """'shows each coefficient and the rendered name of ITS species': also the species a reaction stores as inactive (inact_reac / inact_prod) are shown, on
+    their side of the arrow, as the bracketed group ' + ( ... )' that Reaction.from_string reads (C12), with coefficient and format name like every other
+    species - Fe+2 + H2O2 + (H+) -> Fe+3 + OH- + (2 .OH) in all three formats, for a reaction and an equilibrium, and with a group on one side only"""
+    from chempy.chemistry import Reaction, Equilibrium, Substance
     bad = []
-    for cls, arrow in ((Reaction, {"latex": "\\rightarrow", "unicode": "→", "html": "&rarr;"}), (Equilibrium, {"latex": "\\rightleftharpoons", "unicode": "⇌", "html": "&harr;"})):
-        for coeff, shown in ((1, ""), (2, "2 "), (12, "12 "), (0.5, "0.5 "), (1.5, "1.5 "), (Fraction(1, 3), "1/3 ")):
-            r = cls({"H2O2": 1, "Fe+3": coeff}, {"H2O": 1, "O2": coeff}, checks=())
-            want = {"latex": "Fe^{3+} + H_{2}O_{2} %s H_{2}O + O_{2}", "unicode": "Fe³⁺ + H₂O₂ %s H₂O + O₂", "html": "Fe<sup>3+</sup> + H<sub>2</sub>O<sub>2</sub> %s H<sub>2</sub>O + O<sub>2</sub>"}
-            for fmt in ("latex", "unicode", "html"):
-                got = getattr(r, fmt)(subs)
-                names = {"latex": ("Fe^{3+}", "O_{2}"), "unicode": ("Fe³⁺", "O₂"), "html": ("Fe<sup>3+</sup>", "O<sub>2</sub>")}[fmt]
-                exp = "%s%s + %s %s %s + %s%s" % (shown, names[0], want[fmt].split(" + ")[1].split(" %s")[0], arrow[fmt], want[fmt].split("%s ")[1].split(" + ")[0], shown, names[1])
-                if got != exp:
-                    bad.append((cls.__name__, coeff, fmt, got, exp))
-    v.prove("one_is_omitted_everything_else_is_written", not bad, detail=repr(bad[:3]))
+    try:
+        subs = {k: Substance.from_formula(k) for k in ("Fe+2", "H2O2", "Fe+3", "OH-", "H+", ".OH")}
+        for cls in (Reaction, Equilibrium):
+            for ir, ip in (({"H+": 1}, {".OH": 2}), ({}, {".OH": 2}), ({"H+": 3}, {}), ({"H+": 1, "H2O2": 2}, {".OH": 1, "Fe+2": 4})):
+                r = cls({"Fe+2": 1, "H2O2": 1}, {"Fe+3": 1, "OH-": 1}, inact_reac=ir, inact_prod=ip, checks=())
+                for fmt in _FORMATS:
+                    got = getattr(r, fmt)(subs)
+                    wrong = _line_shown(got, fmt, cls.__name__, _expected_terms(r.reac, fmt), _expected_terms(r.prod, fmt), _expected_terms(r.inact_reac, fmt), _expected_terms(r.inact_prod, fmt))
+                    if wrong:
+                        bad.append((cls.__name__, fmt, wrong))
+    except Exception as e:
+        bad.append("raised %r" % (e,))
+    v.prove("inactive_species_are_shown_in_their_group", not bad, detail=repr(bad[:3]))
+
+
+@harness("C13", "printed_reactions.species_with_phase_suffix", functions=["chempy.printing.printer:Printer._print", "chempy.printing.tex:LatexPrinter._print_Substance", "chempy.printing.pretty:UnicodePrinter._print_Substance",
+                                                                         "chempy.printing.web:HTMLPrinter._print_Substance", "chempy.chemistry:Species.from_formula"], kind="data")
+def _(v):
+    """'the rendered name of its species': what stands in the printed line is the format name also when the entry is a Species (a subclass of Substance) with a
+    phase suffix, and printing a Substance / Species by itself gives its name in that format"""
+    from chempy.chemistry import Equilibrium, Species, Substance
+    import chempy.printing as PR
+    bad = []
+    try:
+        r = Equilibrium({"Fe+3(aq)": 1, "OH-": 3}, {"Fe(OH)3(s)": 1})
+        subs = {k: Species.from_formula(k) for k in ("Fe+3(aq)", "OH-", "Fe(OH)3(s)")}
+        for fmt in _FORMATS:
+            wrong = _line_shown(getattr(r, fmt)(subs), fmt, "Equilibrium", _expected_terms(r.reac, fmt), _expected_terms(r.prod, fmt))
+            if wrong:
+                bad.append((fmt, wrong))
+    except Exception as e:
+        bad.append("raised %r" % (e,))
+    v.prove("species_in_a_printed_equilibrium", not bad, detail=repr(bad[:3]))
+    for label, make in (("species", lambda: Species.from_formula("Fe+3(aq)")), ("substance", lambda: Substance.from_formula("Fe+3(aq)"))):
+        _safely(v, label + "_printed_by_itself", lambda: (lambda s: (PR.latex(s), PR.unicode_(s), PR.html(s)))(make()), _NAMES["Fe+3(aq)"])
